@@ -272,7 +272,9 @@ def _(c):
 def _(c):
     c.trusted('the sink is the ConnectionManager (main.py wiring); RuntimeError as ConnectionManager.message').interface()
     c.raises('RuntimeError', when=None, exact=False)
-    c.effect('ext_event(3, connection_id)')
+    c.raise_keeps_heap = False
+    c.effect('ext_event(3, connection_id)\nbump("n_fwd")')
+    c.on_raise_effect('bump("n_rej")')      # the sink rejected the message (only for ill-formed histories, e.g. delete_id of an unknown id)
     c.modifies('trace')
 
 
@@ -288,8 +290,13 @@ def _(c):
     c.ensures('(not first) or (ext_trace()[old(len(ext_trace()))] == (10 if msg.name != "get_registry" else (12 if msg.sent else 11)) and '
               'ext_text()[old(len(ext_trace()))] == conn_id)', 'opened_first_with_role_from_get_registry_direction')
     c.ensures('ext_trace()[len(ext_trace()) - 1] == 3 and ext_text()[len(ext_trace()) - 1] == conn_id', 'message_forwarded_under_its_own_tag')
+    c.ensures('all(ext_trace()[k] != 8 and ext_trace()[k] != 7 for k in range(old(len(ext_trace())), len(ext_trace())))', 'neither_reads_nor_passes_through')
     c.ensures('self.last_time == msg.timestamp', 'remembers_time')
-    c.modifies('self.last_time', 'set(self.known_connections)', 'trace', 'ext')
+    c.ensures('n_fwd() == old(n_fwd()) + 1 and n_unp() == old(n_unp()) and n_read() == old(n_read()) and n_rej() == old(n_rej())', 'forwarded_exactly_once')
+    c.on_raise_ensures('n_fwd() == old(n_fwd()) + 1 and n_unp() == old(n_unp()) and n_read() == old(n_read()) and n_rej() == old(n_rej()) + 1 and '
+                       'len(ext_trace()) > old(len(ext_trace())) and ext_trace()[len(ext_trace()) - 1] == 3 and '
+                       'all(ext_trace()[k] != 8 and ext_trace()[k] != 7 for k in range(old(len(ext_trace())), len(ext_trace())))', 'a_failing_message_was_still_forwarded_once')
+    c.modifies('self.last_time', 'set(self.known_connections)', 'trace', 'ext', 'counts', 'ui', 'when(ui_state() is not None, ui_state()._paused)')
     c.native_gen(lambda rnd: (gen.parser_with_history(rnd), rnd.choice(['A', 'B', 'c', 'new1', 'PARSED']), gen.simple_message(rnd)))
 
 
